@@ -100,10 +100,47 @@ template <class X> void mm_run(Ctx& c, uint64_t idx) {
             if (be.outstanding() || be.bad_free) { c.violation("C13", "mm/completed-manager-leaves-backend-blocks", be.describe_live() + " " + be.bad_free_note); be.release_all(); } } }
     // a complete manager passes
     if (idx % 16 == 0) { int rc = uriTestMemoryManager(good.mgr()); c.evaluations++; if (rc != URI_SUCCESS) c.violation("C13", "mm/complete-manager-fails-self-test", fmt("rc=%d", rc)); if (good.outstanding()) { c.violation("C13", "mm/self-test-leaks", good.describe_live()); good.release_all(); } }
+    // ... and when the manager legally refuses one of the self test's requests (a failing realloc leaves the old block with the caller),
+    // the test may call the manager faulty but must have given every block back: there is no release call that could do it later
+    if (idx % 16 == 8) { long k = 1 + (long)((idx / 16) % 14); Ledger t; t.arm(k, (idx / 16) % 3 == 0); int rc; { LibScope ls; rc = uriTestMemoryManager(t.mgr()); } c.evaluations++; c.count(t.failed ? "self_test_with_refused_request" : "self_test_request_index_not_reached");
+        if (t.outstanding()) { c.violation("C13", "mm/self-test-leaves-a-block-after-a-refused-request", fmt("request %ld refused%s: rc=%d, %s", k, (idx / 16) % 3 == 0 ? " (and all later ones)" : "", rc, t.describe_live().c_str())); t.release_all(); }
+        if (t.bad_free) c.violation("C13", "mm/self-test-bad-release-after-a-refused-request", fmt("request %ld refused: %s", k, t.bad_free_note.c_str())); }
     c.distinct(hash_str(s, nullMask));
     if (idx % 500 == 0) c.sample("shape", fmt("null-slot mask 0x%x with \"%s\"", nullMask, esc(s).c_str()));
 }
-static void mm_case(Ctx& c, uint64_t idx) { if (idx % 2) mm_run<ApiW>(c, idx); else mm_run<ApiA>(c, idx); }
+// A component far too large to be real memory: 2^29 + 3 and 2^30 + 5 characters, made of one 1 MiB page-cache file mapped again and
+// again behind itself (address space only). Make-owner has to ask its manager for exactly length * sizeof(character) bytes -- the
+// manager notes the request and refuses it -- and report out of memory in both APIs. (An int byte count wraps here for wchar_t:
+// fix 48b0f44.) fast build only; skipped where the mapping cannot be set up.
+#include <sys/mman.h>
+template <class X> static void giant_component(Ctx& c, size_t nchars) {
+    typedef typename X::Char Char; typedef typename X::Uri Uri;
+    const size_t piece = (size_t)1 << 20; size_t bytes = nchars * sizeof(Char); size_t total = (bytes + piece - 1) / piece * piece;
+    int fd = memfd_create("vf-giant", 0); if (fd < 0 || ftruncate(fd, (off_t)piece) != 0) { if (fd >= 0) close(fd); c.count("giant_component_skipped"); return; }
+    { std::vector<Char> one(piece / sizeof(Char), X::wid('a')); if (write(fd, one.data(), piece) != (ssize_t)piece) { close(fd); c.count("giant_component_skipped"); return; } }
+    char* base = (char*)mmap(nullptr, total, PROT_NONE, MAP_PRIVATE | MAP_ANONYMOUS | MAP_NORESERVE, -1, 0);
+    if (base == MAP_FAILED) { close(fd); c.count("giant_component_skipped"); return; }
+    bool ok = true; for (size_t off = 0; off < total && ok; off += piece) ok = mmap(base + off, piece, PROT_READ, MAP_SHARED | MAP_FIXED, fd, 0) != MAP_FAILED;
+    if (ok) {
+        struct Rec { UriMemoryManager mm; size_t largest = 0; uint64_t n = 0; } rec; memset(&rec.mm, 0, sizeof rec.mm);
+        rec.mm.userData = &rec;
+        rec.mm.malloc = [](UriMemoryManager* m, size_t n) -> void* { Rec* r = (Rec*)m->userData; r->n++; if (n > r->largest) r->largest = n; if (n > ((size_t)64 << 20)) { errno = ENOMEM; return nullptr; } return raw_malloc(n ? n : 1); };
+        rec.mm.calloc = [](UriMemoryManager* m, size_t a, size_t b) -> void* { Rec* r = (Rec*)m->userData; r->n++; if (b && a > (size_t)-1 / b) return nullptr; if (a * b > r->largest) r->largest = a * b; if (a * b > ((size_t)64 << 20)) { errno = ENOMEM; return nullptr; } void* p = raw_malloc(a * b ? a * b : 1); if (p) memset(p, 0, a * b); return p; };
+        rec.mm.realloc = [](UriMemoryManager*, void*, size_t) -> void* { return nullptr; };
+        rec.mm.reallocarray = [](UriMemoryManager*, void*, size_t, size_t) -> void* { return nullptr; };
+        rec.mm.free = [](UriMemoryManager*, void* p) { if (p) raw_free(p); };
+        Uri u; memset(&u, 0, sizeof u); u.query.first = (const Char*)base; u.query.afterLast = (const Char*)base + nchars;
+        int rc; { LibScope ls; rc = X::MakeOwnerMm(&u, &rec.mm); } c.evaluations++; c.count("giant_component_make_owner");
+        Str what = fmt("uriMakeOwnerMm%s on a hand-filled URI whose query has %zu characters: rc=%d, largest request %zu bytes (expected %zu), owner=%d", X::tag(), nchars, rc, rec.largest, bytes, (int)u.owner);
+        if (rec.largest != bytes) c.violation("C19", fmt("mm/%s/giant-component/copy-sized-wrongly", X::tag()), what);
+        else if (rc != URI_ERROR_MALLOC) c.violation("C14", fmt("mm/%s/giant-component/refused-request-not-reported", X::tag()), what);
+        if (rc == URI_SUCCESS || u.owner) { /* whatever it believes to own is not worth walking: forget it */ }
+    } else c.count("giant_component_skipped");
+    munmap(base, total); close(fd);
+}
+static void mm_case(Ctx& c, uint64_t idx) {
+    if (idx < 4 && c.build == "fast") { c.attribute("C19"); size_t n = idx < 2 ? ((size_t)1 << 29) + 3 : ((size_t)1 << 30) + 5; if (idx % 2) giant_component<ApiW>(c, n); else giant_component<ApiA>(c, n); return; }
+    if (idx % 2) mm_run<ApiW>(c, idx); else mm_run<ApiA>(c, idx); }
 static Monitor monM = {"mm", "C13: incomplete memory managers rejected before any slot is touched, all ...Mm functions", "C13", mm_ncases, mm_case, nullptr};
 VF_REGISTER(monM);
 
